@@ -27,7 +27,8 @@ type knownShapes struct {
 	Funcs  map[string]string      `json:"funcs"`
 	Fields map[string][][2]string `json:"fields"`
 
-	curName map[string]string // name after undoing type renames -> name in the tree (computeAliases)
+	curName map[string]string            // name after undoing type renames -> name in the tree (computeAliases)
+	under   map[string]map[string]string // struct type -> field -> underlying type, for fields of a named module type
 }
 
 // replaceTypeName replaces the qualified type name old by new where it stands as a whole name.
@@ -124,6 +125,15 @@ func collectShapes(pkgs []*packages.Package) *knownShapes {
 					var fl [][2]string
 					for i := 0; i < st.NumFields(); i++ {
 						fl = append(fl, [2]string{st.Field(i).Name(), types.TypeString(st.Field(i).Type(), qualFull)})
+						if nt, isNamed := st.Field(i).Type().(*types.Named); isNamed && nt.Obj().Pkg() != nil && nt.Obj().Pkg() == pk.Types {
+							if ks.under == nil {
+								ks.under = map[string]map[string]string{}
+							}
+							if ks.under[typeString(named)] == nil {
+								ks.under[typeString(named)] = map[string]string{}
+							}
+							ks.under[typeString(named)][st.Field(i).Name()] = types.TypeString(nt.Underlying(), qualFull)
+						}
 					}
 					ks.Fields[typeString(named)] = fl
 				}
@@ -274,6 +284,32 @@ func computeAliases(pkgs []*packages.Package) {
 					fm[typ] = map[string]string{}
 				}
 				fm[typ][news[0]] = olds[0]
+			}
+		}
+		// a field whose type became a new named type of the package with the old type as its
+		// underlying type (nonce [12]byte -> counter chunkNonce)
+		for t, olds := range oldByType {
+			if len(olds) != 1 || len(newByType[t]) != 0 {
+				continue
+			}
+			var cands []string
+			for _, f := range now {
+				if was[f[0]] {
+					continue
+				}
+				if u := cur.under[typ][f[0]]; u == t {
+					if _, pinnedType := known.Fields[f[1]]; !pinnedType {
+						cands = append(cands, f[0])
+					}
+				}
+			}
+			if len(cands) == 1 {
+				if fm[typ] == nil {
+					fm[typ] = map[string]string{}
+				}
+				if _, taken := fm[typ][cands[0]]; !taken {
+					fm[typ][cands[0]] = olds[0]
+				}
 			}
 		}
 	}
